@@ -548,6 +548,13 @@ func (e *Exec) stub(fn *ssa.Function, full string, args []Value) (Value, bool) {
 		e.objSeq++
 		e.ctxs[e.objSeq] = &ctxInfo{}
 		return &IfaceV{t: types.Typ[types.UnsafePointer], v: &OpaqueV{kind: "ctx", id: e.objSeq}}, true
+	case "fmt.Fprintf", "fmt.Fprint":
+		return e.fprintf(full == "fmt.Fprintf", args), true
+	case "io.WriteString":
+		w := args[0].(*IfaceV)
+		arr, n := e.stringArr(args[1].(*StringV))
+		o := e.newObj(&BytesV{arr: arr, n: -1}, "io.WriteString")
+		return e.callMethod(w, "Write", []Value{&SliceV{obj: o, off: e.c64(0), len: n, cap: n}}), true
 	case "reflect.DeepEqual":
 		return e.deepEqual(args[0], args[1]), true
 	case "sync/atomic.LoadInt32":
@@ -670,4 +677,158 @@ func (e *Exec) deepEqual(a, b Value) *Term {
 	}
 	e.unsupported("reflect.DeepEqual on this value shape")
 	return nil
+}
+
+// callMethod invokes a method on an interface value (dynamic dispatch as the
+// interpreter does for invoke instructions).
+func (e *Exec) callMethod(iv *IfaceV, name string, args []Value) Value {
+	if iv.t == nil {
+		e.mustHold(e.st.False, "nil dereference", "method call on nil interface "+name)
+	}
+	ms := e.prog.MethodSets.MethodSet(iv.t)
+	var sel *types.Selection
+	for i := 0; i < ms.Len(); i++ {
+		if ms.At(i).Obj().Name() == name {
+			sel = ms.At(i)
+		}
+	}
+	if sel == nil {
+		e.unsupported("method " + name + " not found on " + iv.t.String())
+	}
+	fn := e.prog.MethodValue(sel)
+	return e.callFunc(fn, append([]Value{iv.v}, args...), nil)
+}
+
+// utf8Encode appends the UTF-8 encoding of rune r (a term of any width) to
+// out; the encoded length depends on the value, so the path forks.
+func (e *Exec) utf8Encode(r *Term, out []*Term) []*Term {
+	r32 := e.st.Zext(32, r)
+	if r.w > 32 {
+		r32 = e.st.Extract(31, 0, r)
+	}
+	c := func(v uint64) *Term { return e.st.Const(32, v) }
+	b8 := func(t *Term) *Term { return e.st.Extract(7, 0, t) }
+	sh := func(t *Term, n uint64) *Term { return e.st.Bin(OpLshr, t, c(n)) }
+	and := func(t *Term, m uint64) *Term { return e.st.Bin(OpAnd, t, c(m)) }
+	or := func(t *Term, m uint64) *Term { return e.st.Bin(OpOr, t, c(m)) }
+	if e.Branch(e.st.Cmp(OpUlt, r32, c(0x80))) {
+		return append(out, b8(r32))
+	}
+	if e.Branch(e.st.Cmp(OpUlt, r32, c(0x800))) {
+		return append(out, b8(or(sh(r32, 6), 0xc0)), b8(or(and(r32, 0x3f), 0x80)))
+	}
+	// surrogates and out-of-range values become U+FFFD
+	bad := e.st.Or(e.st.And(e.st.Cmp(OpUle, c(0xd800), r32), e.st.Cmp(OpUle, r32, c(0xdfff))), e.st.Cmp(OpUlt, c(0x10ffff), r32))
+	if e.Branch(bad) {
+		return append(out, e.st.Const(8, 0xef), e.st.Const(8, 0xbf), e.st.Const(8, 0xbd))
+	}
+	if e.Branch(e.st.Cmp(OpUlt, r32, c(0x10000))) {
+		return append(out, b8(or(sh(r32, 12), 0xe0)), b8(or(and(sh(r32, 6), 0x3f), 0x80)), b8(or(and(r32, 0x3f), 0x80)))
+	}
+	return append(out, b8(or(sh(r32, 18), 0xf0)), b8(or(and(sh(r32, 12), 0x3f), 0x80)), b8(or(and(sh(r32, 6), 0x3f), 0x80)), b8(or(and(r32, 0x3f), 0x80)))
+}
+
+// fprintf: fmt.Fprintf / fmt.Fprint for a constant format and the verbs %c, %s,
+// %v/%d/%x of constants, %%; the formatted bytes reach the writer in one Write.
+func (e *Exec) fprintf(withFormat bool, args []Value) Value {
+	w := args[0].(*IfaceV)
+	var vals []Value
+	fi := 1
+	format := ""
+	if withFormat {
+		format = e.constString(args[1])
+		fi = 2
+	}
+	if fi < len(args) {
+		if sl, ok := args[fi].(*SliceV); ok && sl.obj != nil {
+			av := e.load0(&PtrV{obj: sl.obj, path: sl.path}).(*ArrayV)
+			n := int(e.constInt(sl.len))
+			off := int(e.constInt(sl.off))
+			vals = av.e[off : off+n]
+		}
+	}
+	var out []*Term
+	lit := func(s string) {
+		for i := 0; i < len(s); i++ {
+			out = append(out, e.st.Const(8, uint64(s[i])))
+		}
+	}
+	emit := func(verb byte, v Value) {
+		iv, _ := v.(*IfaceV)
+		if iv == nil {
+			e.unsupported("fmt: operand")
+		}
+		switch x := iv.v.(type) {
+		case *Term:
+			switch {
+			case verb == 'c' && x.w > 0:
+				if _, signed, _ := intWidth(iv.t); signed && x.w < 32 {
+					x = e.st.Sext(32, x)
+				}
+				out = e.utf8Encode(x, out)
+			case x.op == OpConst && (verb == 'd' || verb == 'v'):
+				_, signed, _ := intWidth(iv.t)
+				if signed {
+					lit(fmt.Sprintf("%d", sx(x.val, x.w)))
+				} else {
+					lit(fmt.Sprintf("%d", x.val))
+				}
+			case x.op == OpConst && verb == 'x':
+				lit(fmt.Sprintf("%x", x.val))
+			default:
+				e.unsupported(fmt.Sprintf("fmt verb %%%c on a symbolic integer", verb))
+			}
+		case *StringV:
+			if verb != 's' && verb != 'v' {
+				e.unsupported("fmt verb on string")
+			}
+			arr, n := e.stringArr(x)
+			k := int(e.constInt(n))
+			for i := 0; i < k; i++ {
+				out = append(out, e.st.Select(arr, e.c64(int64(i))))
+			}
+		default:
+			e.unsupported("fmt: operand kind")
+		}
+	}
+	if withFormat {
+		ai := 0
+		for i := 0; i < len(format); i++ {
+			ch := format[i]
+			if ch != '%' {
+				out = append(out, e.st.Const(8, uint64(ch)))
+				continue
+			}
+			i++
+			if i >= len(format) {
+				e.unsupported("fmt: dangling %")
+			}
+			if format[i] == '%' {
+				out = append(out, e.st.Const(8, '%'))
+				continue
+			}
+			if ai >= len(vals) {
+				e.unsupported("fmt: missing operand")
+			}
+			switch format[i] {
+			case 'c', 's', 'd', 'v', 'x':
+				emit(format[i], vals[ai])
+			default:
+				e.unsupported("fmt verb %" + string(format[i]))
+			}
+			ai++
+		}
+	} else {
+		for _, v := range vals {
+			emit('v', v)
+		}
+	}
+	arr := e.st.ConstArr(bytesSort, 0)
+	for i, b := range out {
+		arr = e.st.StoreArr(arr, e.c64(int64(i)), b)
+	}
+	n := e.c64(int64(len(out)))
+	o := e.newObj(&BytesV{arr: arr, n: -1}, "fmt buffer")
+	e.callMethod(w, "Write", []Value{&SliceV{obj: o, off: e.c64(0), len: n, cap: n}})
+	return TupleV{n, &IfaceV{}}
 }
